@@ -47,9 +47,10 @@ CONSTANTS MaxDev,        \* an invocation differs from Base in at most MaxDev di
           CliCountsTranslateFailures, CliCatchesTranslateErrors, CliCountsMissingModelFile,
           Emit, NParts, Part
 
-VARIABLES inv, pc, errors, mi, nfiles, nerrfiles, touched, status
+VARIABLES inv, pc, errors, mi, nfiles, nerrfiles, touched, status,
+          why      \* history: which as-built deviations made a difference on this run
 
-vars == <<inv, pc, errors, mi, nfiles, nerrfiles, touched, status>>
+vars == <<inv, pc, errors, mi, nfiles, nerrfiles, touched, status, why>>
 
 PartEnv == atoi(IOEnv.C26_PART)
 NPartsEnv == atoi(IOEnv.C26_NPARTS)
@@ -139,6 +140,7 @@ Init == /\ inv \in Invocations
         /\ pc = "ArgParse"
         /\ errors = 0 /\ mi = 1 /\ nfiles = 0 /\ nerrfiles = 0 /\ touched = {}
         /\ status = [kind |-> "running", code |-> 0]
+        /\ why = {}
 
 Finish(kind, code) == /\ pc' = "done"
                       /\ status' = [kind |-> kind, code |-> code]
@@ -149,25 +151,25 @@ ArgParse ==
     /\ IF inv.paths = {} \/ inv.target = "bogus" \/ (inv.target \in {"sympy", "casadi"} /\ inv.models = <<>>)
        THEN Finish("exit", 2) /\ UNCHANGED errors
        ELSE pc' = "CheckPaths" /\ UNCHANGED <<status, errors>>
-    /\ UNCHANGED <<inv, mi, nfiles, nerrfiles, touched>>
+    /\ UNCHANGED <<inv, mi, nfiles, nerrfiles, touched, why>>
 
 CheckPaths ==
     /\ pc = "CheckPaths"
     /\ errors' = errors + (IF inv.outdir = "missing" THEN 1 ELSE 0) + (IF "missing" \in inv.paths THEN 1 ELSE 0)
     /\ pc' = "ParseOptions"
-    /\ UNCHANGED <<inv, mi, nfiles, nerrfiles, touched, status>>
+    /\ UNCHANGED <<inv, mi, nfiles, nerrfiles, touched, status, why>>
 
 ParseOptions ==
     /\ pc = "ParseOptions"
     /\ errors' = errors + Cardinality({n \in DOMAIN inv.opts : inv.opts[n] # "valid"})
     /\ pc' = "EarlyReturn"
-    /\ UNCHANGED <<inv, mi, nfiles, nerrfiles, touched, status>>
+    /\ UNCHANGED <<inv, mi, nfiles, nerrfiles, touched, status, why>>
 
 EarlyReturn ==
     /\ pc = "EarlyReturn"
     /\ IF errors > 0 THEN Finish("return", errors)
        ELSE pc' = (IF inv.target = "casadi" THEN "ListFiles" ELSE "ParseFiles") /\ UNCHANGED status
-    /\ UNCHANGED <<inv, errors, mi, nfiles, nerrfiles, touched>>
+    /\ UNCHANGED <<inv, errors, mi, nfiles, nerrfiles, touched, why>>
 
 (* -t sympy or no target: parse_all() *)
 ParseFiles ==
@@ -176,7 +178,7 @@ ParseFiles ==
     /\ nerrfiles' = NErrFiles(inv.paths)
     /\ errors' = errors + (IF nfiles' = 0 THEN 1 ELSE nerrfiles')
     /\ pc' = (IF errors' = 0 /\ inv.models # <<>> THEN "PerModel" ELSE "Return")
-    /\ UNCHANGED <<inv, mi, touched, status>>
+    /\ UNCHANGED <<inv, mi, touched, status, why>>
 
 (* -t casadi: list_modelica_files() only *)
 ListFiles ==
@@ -184,7 +186,7 @@ ListFiles ==
     /\ nfiles' = NFiles(inv.paths)
     /\ errors' = errors + (IF nfiles' = 0 THEN 1 ELSE 0)
     /\ pc' = (IF nfiles' = 0 THEN "Return" ELSE "PerModel")
-    /\ UNCHANGED <<inv, mi, nerrfiles, touched, status>>
+    /\ UNCHANGED <<inv, mi, nerrfiles, touched, status, why>>
 
 PerModel ==
     /\ pc = "PerModel"
@@ -195,12 +197,13 @@ PerModel ==
                   \* flatten on the SHARED library_ast; any exception is caught and counted
                   /\ errors' = errors + (IF fails THEN 1 ELSE 0)
                   /\ touched' = touched \cup {m}
-                  /\ pc' = next /\ mi' = mi + 1 /\ UNCHANGED status
+                  /\ pc' = next /\ mi' = mi + 1 /\ UNCHANGED <<status, why>>
              [] inv.target = "sympy" ->
                   \* translate(): generate on a deep copy, write <model>.py
                   IF FlattenFails(m, inv.paths) /\ ~CliCatchesTranslateErrors
-                  THEN Finish("crash", 0) /\ UNCHANGED <<errors, mi, touched>>
+                  THEN Finish("crash", 0) /\ why' = why \cup {"translate-error-escapes"} /\ UNCHANGED <<errors, mi, touched>>
                   ELSE /\ errors' = errors + (IF fails /\ CliCountsTranslateFailures THEN 1 ELSE 0)
+                       /\ why' = why \cup (IF fails /\ ~CliCountsTranslateFailures THEN {"translate-failure-not-counted"} ELSE {})
                        /\ pc' = next /\ mi' = mi + 1 /\ UNCHANGED <<touched, status>>
              [] inv.target = "casadi" ->
                   \* infer the model directory from the file stems, then transfer_model()
@@ -208,6 +211,7 @@ PerModel ==
                   /\ errors' = errors + (IF n >= 2 THEN 1
                                          ELSE IF n = 0 THEN (IF CliCountsMissingModelFile THEN 1 ELSE 0)
                                          ELSE IF fails THEN 1 ELSE 0)
+                  /\ why' = why \cup (IF n = 0 /\ ~CliCountsMissingModelFile THEN {"missing-model-file-not-counted"} ELSE {})
                   /\ pc' = next /\ mi' = mi + 1 /\ UNCHANGED <<touched, status>>
     /\ UNCHANGED <<inv, nfiles, nerrfiles>>
 
@@ -226,11 +230,11 @@ Tags(v) == {Phase(v), "target-" \o v.target}
 Return ==
     /\ pc = "Return"
     /\ Finish("return", errors)
-    /\ UNCHANGED <<inv, errors, mi, nfiles, nerrfiles, touched>>
+    /\ UNCHANGED <<inv, errors, mi, nfiles, nerrfiles, touched, why>>
 
 Log == (Emit /\ pc' = "done") =>
           PrintT(<<"PROG", ToJson([prog |-> inv, tags |-> Tags(inv), expect |-> Expected(inv),
-                                   asbuilt |-> status'])>>)
+                                   asbuilt |-> status', why |-> why'])>>)
 
 Next == ArgParse \/ CheckPaths \/ ParseOptions \/ EarlyReturn \/ ParseFiles \/ ListFiles \/ PerModel \/ Return
 
@@ -239,6 +243,8 @@ Spec == Init /\ [][Next]_vars
 -----------------------------------------------------------------------------
 (* properties *)
 StatusIsCount == pc = "done" => status = Expected(inv)
+(* the switches explain every difference: a run on which no as-built deviation made a difference gives the count *)
+DeviationsExplainAll == (pc = "done" /\ why = {}) => status = Expected(inv)
 
 NeverCrashes == status.kind # "crash"
 
